@@ -23,6 +23,13 @@ Driver operations for the peer-management models (C18). Core Lean only.
   conn dump
      state line: conns=<n> live=<n> bans=<n> dials=<n> asks=<n> closed=<n> addrs=[…] banned=[…]
 
+  wire new <target> <banTicks>                 admission handlers and connection manager wired together (BanAddress set)
+  wire ok <k> <host> <group> | wire fail <k> <host> | wire addrfail <k>   (k-th request in flight; ok = dial, handshake, admission;
+                                                                            a refused peer is handed to done → Disconnect(connReq))
+  wire done <j> | wire in <host> <group> | wire indone <j> | wire ban <host> | wire clock <ticks> | wire dump
+     answer: <admitted|rejected:reason|-> conns=<n> live=<n> closed=<n> dials=<n> asks=<n> out=<n> inb=<n> n=<Count()> cc=[…] og=[…]
+             (cc over hosts < 32, og over groups < 8)
+
 Every `conn` op is ALSO computed by the code regenerated from connmanager.go (`BHS.Gen.ConnMgr` through
 `BHS.Model.ConnMgrWire.genStep`); when its state (answer line, pending, live, ids, counters) differs from the hand
 model's the answer is `err:gen-mismatch model=… gen=…`, so the correspondence runs exercise the translation too.
@@ -30,6 +37,7 @@ model's the answer is `err:gen-mismatch model=… gen=…`, so the correspondenc
 import BHS.Model.Peers
 import BHS.Model.ConnMgr
 import BHS.Model.ConnMgrWire
+import BHS.Model.PeerWire
 import BHS.Gen.PeerConsts
 
 namespace Driver.Ops.Peers
@@ -41,6 +49,9 @@ structure S where
   ccfg : ConnMgr.Cfg := { target := Gen.defaultTargetOutbound, banAddr := true, maxFailed := Gen.maxFailedAttempts }
   cst : ConnMgr.St := {}
   gst : ConnMgr.G := {}   -- the same machine over the code REGENERATED from connmanager.go (BHS.Gen.ConnMgr)
+  wcfg : PeerWire.Cfg := { pc := { maxPeers := Gen.maxPeers, maxPerIP := Gen.maxPeersPerIP, banMs := Gen.banDurationDefaultMs },
+                           cc := { target := Gen.defaultTargetOutbound, banAddr := true, maxFailed := Gen.maxFailedAttempts } }
+  wst : PeerWire.W := {}  -- admission handlers + connection manager wired as in server.go
 
 def kindOf : String → Option Peers.Kind
   | "in" => some .inbound
@@ -107,7 +118,34 @@ def connStep (st : S) (e : Option ConnMgr.Event) : Option (S × String) :=
     some ({ st with cst := c, gst := g }, connCheck c g)
   | none => some (st, "bad-index")
 
+def wireLine (res : String) (w : PeerWire.W) : String :=
+  s!"{res} conns={w.c.conns.length} live={w.c.live.length} closed={w.c.closed.length} dials={w.c.dials} asks={w.c.asks} out={w.out.length} inb={w.inb.length} n={Peers.count w.p} cc={showInts 32 w.p.conn} og={showInts 8 w.p.groups}"
+
+def wireStep (st : S) (e : PeerWire.Event) : Option (S × String) :=
+  let r := PeerWire.step st.wcfg st.wst e
+  let res := match r.2 with
+    | some a => reason a
+    | none => "-"
+  some ({ st with wst := r.1 }, wireLine res r.1)
+
 def handle (st : S) : List String → Option (S × String)
+  | ["wire", "new", t, b] => do
+    let target ← t.toNat?
+    let ban ← b.toNat?
+    let pc0 : Peers.Cfg := { st.wcfg.pc with banMs := ban }
+    let cc0 : ConnMgr.Cfg := { target := ConnMgr.effTarget Gen.defaultTargetOutbound target, banAddr := true, maxFailed := Gen.maxFailedAttempts }
+    let cfg : PeerWire.Cfg := { pc := pc0, cc := cc0 }
+    let w := PeerWire.start cfg
+    pure ({ st with wcfg := cfg, wst := w }, wireLine "-" w)
+  | ["wire", "ok", k, h, g] => do wireStep st (.ok (← k.toNat?) (← h.toNat?) (← g.toNat?))
+  | ["wire", "fail", k, h] => do wireStep st (.fail (← k.toNat?) (← h.toNat?))
+  | ["wire", "addrfail", k] => do wireStep st (.addrFail (← k.toNat?))
+  | ["wire", "done", j] => do wireStep st (.done (← j.toNat?))
+  | ["wire", "in", h, g] => do wireStep st (.inbound (← h.toNat?) (← g.toNat?))
+  | ["wire", "indone", j] => do wireStep st (.inDone (← j.toNat?))
+  | ["wire", "ban", h] => do wireStep st (.ban (← h.toNat?))
+  | ["wire", "clock", d] => do wireStep st (.clock (← d.toNat?))
+  | ["wire", "dump"] => some (st, wireLine "-" st.wst)
   | ["peer", "new", b] => do
     let ban ← b.toNat?
     pure ({ st with cfg := { st.cfg with banMs := ban }, st := {} }, "ok")
